@@ -16,6 +16,16 @@ from vlib.core import Broken, qlit
 IMPORTS = 'Model.Prelude Model.L4_LoopBase Gen.Gen_Loop Model.L4_Loop'
 
 
+def _infected_sis(sim): return sim.diseases.sis.infected.uids
+
+
+def mk_queue(seed):
+    import starsim as ss, pandas as pd
+    df = pd.DataFrame([dict(name='x', disease='sis', state='infected', efficacy=0.9, post_state='susceptible')])
+    trt = ss.treat_num(product=ss.Tx(df), prob=0.5, max_capacity=15, eligibility=_infected_sis, name='trt')
+    return ss.Sim(n_agents=4000, diseases=ss.SIS(beta=0.08, init_prev=0.08, dur_inf=ss.lognorm_ex(mean=30)), networks=ss.RandomNet(n_contacts=4), interventions=trt, dur=5, rand_seed=seed, verbose=0)
+
+
 def configs(ss, thorough):
     from harness.probes import RecAnalyzer as Rec
     cf = {}
@@ -31,6 +41,7 @@ def configs(ss, thorough):
     # a long run (every distribution is called well over 100 times before the late pauses)
     cf['long-run-days'] = lambda seed: ss.Sim(n_agents=40, diseases=ss.SIS(beta=ss.beta(0.03, 'day'), dur_inf=ss.dur(10, 'day')), networks=ss.RandomNet(n_contacts=4), analyzers=Rec(),
                                               unit='day', dt=1.0, start='2020-01-01', dur=150, rand_seed=seed, verbose=0)
+    cf['sis-treatment-queue'] = mk_queue      # a capacity-limited treatment queue (first come, first served): who is treated after a restore depends on the queue order surviving the copy
     if thorough:
         cf['two-diseases-erdos'] = lambda seed: ss.Sim(n_agents=80, diseases=[ss.SIR(), ss.SIS(beta=0.1)], networks=ss.ErdosRenyiNet(p=0.05),
                                                        dur=5, rand_seed=seed, verbose=0, total_pop=1000)
